@@ -672,7 +672,8 @@ def run(ctx, replay=None):
         import ckpt_localfs
         fs_terms, fs_meta = [], []
         for name, events, crash, fviols in ckpt_localfs.run_streams():
-            ctx.count(("localfs", name), nontrivial=sum(1 for e in events if e[0] == "copy") >= 2)
+            ctx.count(("localfs", name), nontrivial=sum(1 for e in events if e[0] == "copy") >= 2 or
+                      any(e[0] == "resume_check" and e[4] == 3 for e in events))
             ctx.h("localfs", name + "_copies", sum(1 for e in events if e[0] == "copy"))
             if crash:
                 ctx.h("localfs", name + "_exception:" + crash[:60])
